@@ -80,6 +80,13 @@ def gen(r, tier, i):
                 live.append(c)
                 script[str(t)] = ['add', c]
             t += r.choice([1.0, 2.0])
+    inner_procs = r.random() < 0.4
+    if inner_procs and any(o['path'] in (['cells'], ['cells2']) for o in overrides):
+        # (a node keeps the flags it had when it is moved into another branch: to keep the expectation a
+        # function of the current place only, such cases delete instead of move)
+        for t, op in script.items():
+            if op[0] == 'move':
+                script[t] = ['delete', op[1]]
     calls = [[r.choice(IV), r.choice([True, False, 'update'])] for _ in range(r.randint(1, 4))]
     if r.random() < 0.2:
         # a forced call over an empty interval (completes what an unforced call left behind)
@@ -90,7 +97,7 @@ def gen(r, tier, i):
     calls.append([r.choice([1.0, 2.0, 2.5]), 'update'])
     return {'procs': procs, 'overrides': overrides, 'script': script, 'calls': calls,
             't0': r.choice([0, 0, 0.0, 2.0, 10.5]), 'emit_steps': [r.choice([2, 3, 0.5, 2.5])],
-            'emit_sum': r.random() < 0.8, 'emit_cell': r.random() < 0.7}
+            'emit_sum': r.random() < 0.8, 'emit_cell': r.random() < 0.7, 'inner_procs': inner_procs}
 
 
 def setup():
@@ -165,6 +172,16 @@ def build(spec, emit_step):
         def next_update(self, timestep, states):
             return {'E': {'n': 1}}
 
+    class Inner(Process):
+        def ports_schema(self):
+            return {'P': {'z': {'_default': 9, '_emit': True, '_divider': 'set'}}}
+
+        def calculate_timestep(self, states):
+            return 1.0
+
+        def next_update(self, timestep, states):
+            return {}
+
     class Director(Process):
         def ports_schema(self):
             sub = {'x': {'_default': 7, '_emit': spec['emit_cell'], '_divider': 'set'},
@@ -177,7 +194,11 @@ def build(spec, emit_step):
             op = self.parameters['script'].get(str(states['clk'] + timestep))
             cells = {k: {'x': 1} for k in states['cells']}
             if op:
-                if op[0] == 'add' and op[1] not in states['cells']:
+                if op[0] == 'add' and op[1] not in states['cells'] and spec.get('inner_procs') and len(op[1]) == 2:
+                    # the child brings a process of its own, which declares (and flags) a variable z
+                    cells['_generate'] = [{'key': op[1], 'processes': {'inner': Inner({})}, 'topology': {'inner': {'P': ()}},
+                                           'initial_state': {'x': 100, 'y': 5}}]
+                elif op[0] == 'add' and op[1] not in states['cells']:
                     cells['_add'] = [{'key': op[1], 'state': {'x': 100, 'y': 5}}]
                 elif op[0] == 'delete' and op[1] in states['cells']:
                     cells.pop(op[1], None)
@@ -267,7 +288,7 @@ def expected_row(spec, snap, fl):
                 continue
             out.setdefault(path[0], {}).setdefault(path[1], {})
             if len(path) == 3:
-                on = spec['emit_cell'] if path[2] == 'x' else (not spec['emit_cell'] if path[2] == 'y' else False)
+                on = spec['emit_cell'] if path[2] == 'x' else (not spec['emit_cell'] if path[2] == 'y' else path[2] == 'z')
                 for o in spec['overrides']:
                     if o['path'] == [path[0]]:
                         on = o['emit']      # a branch-level flag on the glob store covers every child, whenever it was added
@@ -417,7 +438,7 @@ def run(spec):
             snap = ev[4]
             exp = expected_row(spec, snap, fl)
             # branches without emitted variables carry no information: {} and absence are the same row
-            V.check('row_content', _eq(prune(ev[3]), prune(exp)),
+            V.check('row_content', _eq(prune(_noproc(ev[3])), prune(exp)),
                     lambda: ('row at t=%r differs from the emit-flagged projection of the hierarchy' % ev[2],
                              _diff(ev[3], exp)))
             if prev_snap is not None and not _eq(prev_snap[1], snap):
@@ -460,7 +481,7 @@ def run(spec):
         tk = [ev[2] for ev in hk]
         V.check('emit_step_no_duplicates', len(tk) == len(set(tk)) and all(b > a for a, b in zip(tk, tk[1:])),
                 lambda: ('emit_step=%r delivers several rows for one time' % k, tk[:20]))
-        bad = [ev[2] for ev in hk if not any(_eq(prune(r1), prune(ev[3])) for r1 in rows1.get(ev[2], []))]
+        bad = [ev[2] for ev in hk if not any(_eq(prune(_noproc(r1)), prune(_noproc(ev[3]))) for r1 in rows1.get(ev[2], []))]
         V.check('emit_step_subset', not bad and (not hk or hk[0][2] == spec['t0']),
                 lambda: ('emit_step=%r rows are not a subset of the emit_step=1 rows with equal content' % k, bad[:6]))
         total = sum(c[0] for c in spec['calls'])
@@ -477,6 +498,16 @@ def run(spec):
                                                                         [(o[1], 1) for o in spec['script'].values() if o[0] == 'divide'])
                                            for ev in hist for c in ev[4].get('cells', {})) else []),
             'summary': {'rows': len(hist), 'emit_steps': spec['emit_steps']}}
+
+
+def _noproc(d):
+    """A row without process nodes (a branch-level flag also covers the node that holds a process; processes are
+    not variables and are not judged)."""
+    from vivarium.core.process import Process
+    if isinstance(d, dict):
+        return {k: _noproc(v) for k, v in d.items() if not isinstance(v, Process) and
+                not (isinstance(v, tuple) and v and isinstance(v[0], Process))}
+    return d
 
 
 def due_times(spec):
